@@ -1,12 +1,317 @@
 package main
 
 import (
+	"bufio"
 	"encoding/json"
 	"fmt"
 	"os"
+	"os/exec"
+	"path/filepath"
+	"sort"
+	"strings"
+	"sync"
 )
 
-func thorough(c *Ctx, repo, verif string, extra map[string]interface{}) {}
+// ---- mutant files ----------------------------------------------------------------------------
+//
+// /verif/selftest/*.mut:
+//
+//	@@ C09 tokens-ge-zero expect=spend-on-admit
+//	file internal/ratelimiter/ratelimiter.go
+//	<<<
+//	if b.tokens > 0 {
+//	===
+//	if b.tokens >= 0 {
+//	>>>
+//
+// A mutant may contain several file/<<< === >>> blocks.  `neutral` instead of expect= marks a
+// behaviour-preserving edit that must leave every verdict unchanged.
+
+type Mutant struct {
+	Prop    string
+	Name    string
+	Expect  []string
+	Neutral bool
+	Edits   []string // "relpath|old|new"
+	Source  string
+}
+
+func readMutants(dir string) ([]Mutant, error) {
+	files, _ := filepath.Glob(filepath.Join(dir, "*.mut"))
+	sort.Strings(files)
+	var out []Mutant
+	for _, f := range files {
+		fh, err := os.Open(f)
+		if err != nil {
+			return nil, err
+		}
+		sc := bufio.NewScanner(fh)
+		sc.Buffer(make([]byte, 1<<20), 1<<20)
+		var cur *Mutant
+		var file string
+		mode := 0 // 0 header, 1 old, 2 new
+		var oldB, newB []string
+		ln := 0
+		for sc.Scan() {
+			ln++
+			line := sc.Text()
+			switch {
+			case mode == 0 && strings.HasPrefix(line, "@@ "):
+				if cur != nil {
+					out = append(out, *cur)
+				}
+				parts := strings.Fields(line[3:])
+				if len(parts) < 3 {
+					fh.Close()
+					return nil, fmt.Errorf("%s:%d: bad mutant header", f, ln)
+				}
+				cur = &Mutant{Prop: parts[0], Name: parts[1], Source: fmt.Sprintf("%s:%d", filepath.Base(f), ln)}
+				for _, a := range parts[2:] {
+					if a == "neutral" {
+						cur.Neutral = true
+					} else if strings.HasPrefix(a, "expect=") {
+						cur.Expect = strings.Split(strings.TrimPrefix(a, "expect="), ",")
+					}
+				}
+			case mode == 0 && strings.HasPrefix(line, "file "):
+				file = strings.TrimSpace(line[5:])
+			case mode == 0 && line == "<<<":
+				mode, oldB, newB = 1, nil, nil
+			case mode == 1 && line == "===":
+				mode = 2
+			case mode == 2 && line == ">>>":
+				mode = 0
+				if cur == nil || file == "" {
+					fh.Close()
+					return nil, fmt.Errorf("%s:%d: edit outside a mutant", f, ln)
+				}
+				cur.Edits = append(cur.Edits, file+"|"+strings.Join(oldB, "\n")+"|"+strings.Join(newB, "\n"))
+			case mode == 1:
+				oldB = append(oldB, line)
+			case mode == 2:
+				newB = append(newB, line)
+			}
+		}
+		fh.Close()
+		if cur != nil {
+			out = append(out, *cur)
+		}
+	}
+	return out, nil
+}
+
+type subResult struct {
+	LoadError string        `json:"load_error,omitempty"`
+	NotApplic string        `json:"not_applicable,omitempty"`
+	Obs       []*Obligation `json:"obligations"`
+}
+
+// runSub runs this binary on the same repo with extra arguments and decodes its JSON report.
+func runSub(repo, prop string, extra []string, env []string) (*subResult, error) {
+	self, err := os.Executable()
+	if err != nil {
+		return nil, err
+	}
+	args := append([]string{"-prop", prop, "-repo", repo, "-json"}, extra...)
+	cmd := exec.Command(self, args...)
+	cmd.Env = append(os.Environ(), env...)
+	out, err := cmd.Output()
+	var r subResult
+	if jerr := json.Unmarshal(out, &r); jerr != nil {
+		return nil, fmt.Errorf("sub-run failed (%v): %s", err, firstN(string(out), 300))
+	}
+	return &r, nil
+}
+
+func firstN(s string, n int) string {
+	if len(s) > n {
+		return s[:n]
+	}
+	return s
+}
+
+func nonOK(obs []*Obligation) map[string]*Obligation {
+	m := map[string]*Obligation{}
+	for _, o := range obs {
+		if o.Status != "ok" {
+			m[o.Rule+" "+o.Construct] = o
+		}
+	}
+	return m
+}
+
+// thorough adds to the quick verdict: (1) the same rules under other build configurations,
+// (2) the seeded-breakage self test, (3) the neutral-edit self test.  It returns the number of
+// self-test failures (a broken check, not a violation of the property).
+func thorough(c *Ctx, repo, verif string, extra map[string]interface{}) int {
+	base := nonOK(c.Obs)
+	baseAll := map[string]string{}
+	for _, o := range c.Obs {
+		baseAll[o.Rule+" "+o.Construct] = o.Status
+	}
+	failures := 0
+	// (1) build configurations
+	type cfgRes struct {
+		Config string `json:"config"`
+		Result string `json:"result"`
+	}
+	var cfgs []cfgRes
+	for _, cf := range [][2]string{{"GOOS=windows", ""}, {"GOARCH=386", ""}, {"", "verif"}} {
+		name := cf[0]
+		var args, env []string
+		if cf[0] != "" {
+			env = append(env, cf[0])
+		}
+		if cf[1] != "" {
+			args = append(args, "-tags", cf[1])
+			name = "-tags " + cf[1]
+		}
+		r, err := runSub(repo, c.Prop, args, env)
+		switch {
+		case err != nil:
+			cfgs = append(cfgs, cfgRes{name, "error: " + err.Error()})
+			failures++
+		case r.LoadError != "":
+			cfgs = append(cfgs, cfgRes{name, "load error: " + r.LoadError})
+			failures++
+		default:
+			diff := 0
+			seen := map[string]bool{}
+			for _, o := range r.Obs {
+				k := o.Rule + " " + o.Construct
+				seen[k] = true
+				if baseAll[k] != o.Status {
+					diff++
+				}
+			}
+			for k := range baseAll {
+				if !seen[k] {
+					diff++
+				}
+			}
+			if diff == 0 {
+				cfgs = append(cfgs, cfgRes{name, fmt.Sprintf("identical verdicts (%d obligations)", len(r.Obs))})
+			} else {
+				cfgs = append(cfgs, cfgRes{name, fmt.Sprintf("%d obligations differ from the default configuration", diff)})
+				fmt.Printf("  build configuration %s: %d obligations differ\n", name, diff)
+				failures++
+			}
+		}
+	}
+	extra["build_configurations"] = cfgs
+
+	// (2),(3) mutants
+	muts, err := readMutants(filepath.Join(verif, "selftest"))
+	if err != nil {
+		fmt.Println("BROKEN-CHECK: cannot read self-test mutants:", err)
+		return failures + 1
+	}
+	type mres struct {
+		Name    string   `json:"name"`
+		Kind    string   `json:"kind"`
+		Outcome string   `json:"outcome"`
+		Fired   []string `json:"fired,omitempty"`
+	}
+	var mine []Mutant
+	for _, m := range muts {
+		if m.Prop == c.Prop {
+			mine = append(mine, m)
+		}
+	}
+	results := make([]mres, len(mine))
+	sem := make(chan struct{}, 8)
+	var wg sync.WaitGroup
+	for i, m := range mine {
+		wg.Add(1)
+		go func(i int, m Mutant) {
+			defer wg.Done()
+			sem <- struct{}{}
+			defer func() { <-sem }()
+			var args []string
+			for _, e := range m.Edits {
+				args = append(args, "-mut", e)
+			}
+			kind := "seeded-breakage"
+			if m.Neutral {
+				kind = "neutral-edit"
+			}
+			r, err := runSub(repo, c.Prop, args, nil)
+			res := mres{Name: m.Name, Kind: kind}
+			switch {
+			case err != nil:
+				res.Outcome = "error: " + err.Error()
+			case r.NotApplic != "":
+				res.Outcome = "skipped: " + r.NotApplic
+			case r.LoadError != "":
+				res.Outcome = "skipped: mutant does not compile: " + firstN(r.LoadError, 160)
+			default:
+				got := nonOK(r.Obs)
+				var fresh []string
+				for k := range got {
+					if _, ok := base[k]; !ok {
+						fresh = append(fresh, k)
+					}
+				}
+				sort.Strings(fresh)
+				res.Fired = fresh
+				if m.Neutral {
+					gone := 0
+					all := map[string]string{}
+					for _, o := range r.Obs {
+						all[o.Rule+" "+o.Construct] = o.Status
+					}
+					for k, st := range baseAll {
+						if all[k] != st {
+							gone++
+						}
+					}
+					if len(fresh) == 0 && gone == 0 {
+						res.Outcome = "ok: verdicts unchanged"
+					} else {
+						res.Outcome = fmt.Sprintf("FAILED: behaviour-preserving edit changed %d verdicts", len(fresh)+gone)
+					}
+				} else {
+					missing := []string{}
+					for _, e := range m.Expect {
+						hit := false
+						for _, k := range fresh {
+							if strings.HasPrefix(k, e+" ") || strings.Contains(k, e) {
+								hit = true
+							}
+						}
+						if !hit {
+							missing = append(missing, e)
+						}
+					}
+					if len(missing) == 0 && len(fresh) > 0 {
+						res.Outcome = "ok: detected"
+					} else if len(fresh) > 0 {
+						res.Outcome = "FAILED: detected, but not by the expected rule(s) " + strings.Join(missing, ",")
+					} else {
+						res.Outcome = "FAILED: not detected"
+					}
+				}
+			}
+			results[i] = res
+		}(i, m)
+	}
+	wg.Wait()
+	nOK, nSkip := 0, 0
+	for _, r := range results {
+		switch {
+		case strings.HasPrefix(r.Outcome, "ok"):
+			nOK++
+		case strings.HasPrefix(r.Outcome, "skipped"):
+			nSkip++
+		default:
+			failures++
+			fmt.Printf("  self-test %s %s: %s %v\n", r.Kind, r.Name, r.Outcome, r.Fired)
+		}
+	}
+	extra["selftest"] = map[string]interface{}{"mutants": len(mine), "ok": nOK, "skipped": nSkip, "results": results}
+	fmt.Printf("%s thorough: %d build configurations, %d self-test mutants (%d ok, %d skipped), %d failures\n", c.Prop, len(cfgs), len(mine), nOK, nSkip, failures)
+	return failures
+}
 
 func doReplay(c *Ctx, file string) int {
 	b, err := os.ReadFile(file)
